@@ -35,7 +35,7 @@ FUNCTIONS = ['penman.codec._decode', 'penman.codec._encode',
              'penman.layout.get_pushed_variable', 'penman.surface.alignments',
              'penman.surface.role_alignments']
 BOUNDS = {
-    'quick': 'trees of <= 2 branches x 18 calls x every interleaved second '
+    'quick': 'trees of <= 2 branches x 20 calls x every interleaved second '
              'call; set orders: every permutation of the first 3 elements of '
              'every set (17 rewritten sites) on trees of <= 2 branches',
     'thorough': 'trees of <= 3 branches; permutations of the first 4 elements',
@@ -103,10 +103,16 @@ def make_calls():
             [(k, repr(v)) for k, v in surface.alignments(E.g).items()],
             [(k, repr(v)) for k, v in surface.role_alignments(E.g).items()])),
         ('decode', lambda E: gsig(penman.decode(E.text, model=E.m))),
+        # a graph that really contains a collapsible reified node
+        ('dereify_edges (reified argument)', lambda E: gsig(
+            transform.dereify_edges(E.gr, E.m))),
+        ('encode reified', lambda E: penman.encode(E.gr, model=E.m)),
     ]
 
 
-NCALLS = 18
+NCALLS = 20
+GR_TEXT = ('(c / chapter~1 :ARG1-of (_ / have-mod-91~2 :ARG2 7~3) '
+           ':ARG0 (b / book :ARG1-of (_2 / have-mod-91 :ARG2 (d / dull))))')
 
 
 def build_env(sym, n):
@@ -122,6 +128,7 @@ def build_env(sym, n):
     E.g = layout.interpret(Tree(progs.copy_tree(node), metadata={'id': '9'}),
                            real)
     E.g2 = penman.decode(G2_TEXT, model=real)
+    E.gr = penman.decode(GR_TEXT, model=real)
     E.text = penman.format(E.t)
     E.lastvar = sorted(E.g.variables())[-1]
     return E, node
@@ -129,7 +136,7 @@ def build_env(sym, n):
 
 def snapshot(E):
     return (copy.deepcopy(E.t.node), dict(E.t.metadata), gsig(E.g), E.g._top,
-            gsig(E.g2), E.g2._top)
+            gsig(E.g2), E.g2._top, gsig(E.gr), E.gr._top)
 
 
 def h_pure(n: int, **sym):
@@ -152,7 +159,8 @@ def h_pure(n: int, **sym):
         # identity independence: pickled arguments (fresh marker objects)
         P = Env()
         P.m = E.m
-        P.t, P.g, P.g2 = pickle.loads(pickle.dumps((E.t, E.g, E.g2)))
+        P.t, P.g, P.g2, P.gr = pickle.loads(
+            pickle.dumps((E.t, E.g, E.g2, E.gr)))
         P.text, P.lastvar = E.text, E.lastvar
         r4 = f(P)
     except Violation:
@@ -239,6 +247,11 @@ def obligations(tier: str) -> List[dict]:
         for c in (0, 6, 7, 8, 12, 13):
             add('h_pure', '(a,b,d) purity/repeatability/identity', 400, n=2,
                 call=c, other=(c + 5) % NCALLS)
+        # re-topping a nested graph leaves surplus POPs to strip: the
+        # pickled copy (fresh Pop instances) must behave the same
+        for c in (0, 1, 3):
+            add('h_pure', '(a,b,d) purity/repeatability/identity', 400, n=3,
+                call=c, other=2, i0_op=1, i1_op=1)
     else:
         for c in range(NCALLS):
             add('h_pure', '(a,b,d) purity/repeatability/identity', 1800,
@@ -251,7 +264,7 @@ def obligations(tier: str) -> List[dict]:
 
 
 LEVEL_TEXT = ('Bounded model checking: for every tree up to the bound and '
-              'every call of a table of 18 public calls, the real code is run '
+              'every call of a table of 20 public calls, the real code is run '
               'with argument snapshots before/after, repeated, interleaved '
               'with every other call and on pickled copies; hash-seed '
               'independence is decided by running penman with every set '
